@@ -88,7 +88,20 @@ def build_harness(profile="release"):
     return harness_bin(profile)
 
 
+class Hang(Exception):
+    """A call into the code under test did not return (harness watchdog, exit status 3)."""
+    def __init__(self, what, args):
+        Exception.__init__(self, "hang")
+        self.what, self.harness_args = what, args
+
+
+# Every time-out below is a guard against a hang, sized for an idle 16-core machine; on a loaded machine (several
+# checks at once) the same step can take several times longer, so all of them are scaled.
+TIMEOUT_SCALE = float(os.environ.get("VERIF_TIMEOUT_SCALE", "4"))
+
+
 def run_harness(args, profile="release", timeout=3600, env_extra=None, check=True):
+    timeout = timeout * TIMEOUT_SCALE
     b = build_harness(profile)
     env = dict(os.environ)
     if env_extra:
@@ -96,6 +109,11 @@ def run_harness(args, profile="release", timeout=3600, env_extra=None, check=Tru
     t = time.time()
     p = subprocess.run([b] + [str(a) for a in args], stdout=subprocess.PIPE, stderr=subprocess.PIPE, text=True,
                        timeout=timeout, env=env)
+    if p.returncode == 3:
+        # the harness's watchdog: a call into the code under test did not return within the deadline
+        last = [l for l in p.stdout.strip().splitlines() if l.startswith('{"k":"hang"') or l.startswith('{"k": "hang"')]
+        what = json.loads(last[-1]) if last else {"k": "hang", "what": "unknown"}
+        raise Hang(what, [str(a) for a in args])
     if check and p.returncode != 0:
         log(p.stdout[-2000:])
         log(p.stderr[-2000:])
@@ -124,6 +142,7 @@ def run_tlc(ctx, module, cfg=None, env=None, workers=1, timeout=1800, heap="3g",
     """Runs TLC on spec/<module>.tla with spec/<cfg>.cfg. Returns (output, generated, distinct).
     Raises ToolError on any TLC error (a spec-sanity failure is a tool error, never a violation)."""
     cfg = cfg or module
+    timeout = timeout * TIMEOUT_SCALE
     with _meta_lock:
         _meta_counter[0] += 1
         meta = ctx.path("tlc-%s-%d" % (cfg, _meta_counter[0]))
